@@ -117,7 +117,9 @@ func loadAll(cfg *runConfig) (*Program, error) {
 	// contracts must name existing functions
 	for name := range ctr.Funcs {
 		if p.Funcs[name] == nil {
-			return nil, fmt.Errorf("contract for unknown function %q (renamed or removed?)", name)
+			// the obligations pinned for it in obligations.lock are then reported as missing
+			fmt.Fprintf(os.Stderr, "xvc: warning: contract for unknown function %q (renamed or removed?)\n", name)
+			delete(ctr.Funcs, name)
 		}
 	}
 	return p, nil
@@ -452,6 +454,9 @@ func runCheck(cfg *runConfig) int {
 	}
 	// vacuity guards
 	for n := range lock {
+		if cfg.fnFilter != "" {
+			break // a single-function debugging run generates only that function's obligations
+		}
 		if _, ok := sum[n]; !ok && !undecided[n] {
 			fn := strings.SplitN(n, "/", 2)[0]
 			_ = fn
